@@ -2,7 +2,7 @@
 //! `LeakyBucketRateLimiter::{new, check, bump}` on tokio's paused clock and records every
 //! call with the observed result, balance and (through the `verif` accessor) refill deadline.
 //!
-//! usage: factory_pure --seed S --cases N --out DIR
+//! usage: factory_pure --seed S --cases N --out DIR [--replay-ops f1,f2,..] [--only-replay 1]
 //!
 //! ops:  `lbnew <refill> <interval_ns> <max|-> <initial|-> <now_ns> <inst_lim_ns> <MAX_LB_BALANCE>`
 //!                                             -> `bal=<b> dl=<ns|none>`
@@ -176,10 +176,61 @@ async fn one_case(cx: &mut Ctx, rng: &mut Rng, corner: Option<(usize, u128, Opti
     }
 }
 
+/// Re-execute recorded op lines (times are absolute offsets; the clock is advanced to them).
+async fn replay_file(cx: &mut Ctx, path: &str) {
+    let txt = std::fs::read_to_string(path).unwrap_or_default();
+    let mut cur: Option<LeakyBucketRateLimiter> = None;
+    let opt = |s: &str| -> Option<usize> { if s == "-" { None } else { s.parse().ok() } };
+    for line in txt.lines() {
+        let w: Vec<&str> = line.split_whitespace().collect();
+        match w.as_slice() {
+            ["lbnew", refill, interval, max, initial, now, ..] => {
+                let now: u128 = now.parse().unwrap_or(0);
+                let cur_now = cx.now_ns();
+                if now > cur_now {
+                    tokio::time::advance(dur_ns(now - cur_now)).await;
+                }
+                let (max, initial) = (opt(max), opt(initial));
+                let l = LeakyBucketRateLimiter::builder()
+                    .refill(refill.parse().unwrap_or(0))
+                    .interval(dur_ns(interval.parse().unwrap_or(0)))
+                    .maybe_max(max)
+                    .maybe_initial(initial)
+                    .build();
+                let show = |o: Option<usize>| o.map(|v| v.to_string()).unwrap_or_else(|| "-".into());
+                cx.log.rec(
+                    format!("lbnew {refill} {interval} {} {} {} {} {MAX_LB_BALANCE}", show(max), show(initial), cx.now_ns(), cx.lim),
+                    cx.obs(&l),
+                );
+                cur = Some(l);
+            }
+            ["lbcheck", now] => {
+                if let Some(l) = cur.as_mut() {
+                    let now: u128 = now.parse().unwrap_or(0);
+                    let cur_now = cx.now_ns();
+                    if now > cur_now {
+                        tokio::time::advance(dur_ns(now - cur_now)).await;
+                    }
+                    let r = l.check();
+                    cx.log.rec(format!("lbcheck {}", cx.now_ns()), format!("{r} {}", cx.obs(l)));
+                }
+            }
+            ["lbbump"] => {
+                if let Some(l) = cur.as_mut() {
+                    l.bump();
+                    cx.log.rec("lbbump", cx.obs(l));
+                }
+            }
+            _ => {}
+        }
+    }
+}
+
 fn main() {
     let args = Args::parse();
     let seed = args.u64("seed", 1);
-    let cases = args.u64("cases", 300);
+    let cases = if args.u64("only-replay", 0) == 1 { 0 } else { args.u64("cases", 300) };
+    let replay = args.str("replay-ops", "");
     let out = args.str("out", "/tmp/factory-pure-out");
     let rt = tokio::runtime::Builder::new_current_thread().enable_time().start_paused(true).build().unwrap();
     rt.block_on(async move {
@@ -187,6 +238,10 @@ fn main() {
         let lim = instant_limit(t0).as_nanos();
         let mut cx = Ctx { t0, lim, log: Log::create(std::path::Path::new(&out)).unwrap(), st: Stats::default() };
         let mut rng = Rng::new(seed);
+        for f in replay.split(',').filter(|s| !s.is_empty()) {
+            replay_file(&mut cx, f).await;
+        }
+        let only_replay = cases == 0 && !replay.is_empty();
         // fixed corners first: the repo's own unit-test vectors and the saturation corners
         let um = usize::MAX;
         let dmax = Duration::MAX.as_nanos();
@@ -204,6 +259,9 @@ fn main() {
             (1, 0, Some(3), Some(0)),
         ];
         for c in corners {
+            if only_replay {
+                break;
+            }
             one_case(&mut cx, &mut rng, Some(c)).await;
         }
         for _ in 0..cases {
